@@ -29,6 +29,12 @@ type ProcIn struct {
 	// a second signal ("TERM" or "INT") SecondAfter ms after the SIGTERM, i.e. while the exit handler is draining
 	Second      string `json:"second,omitempty"`
 	SecondAfter int    `json:"second_after,omitempty"`
+	// what the endless and the short piece of work are: "" = tunnels through the tcp listener, "http" = requests,
+	// "ws" = websocket sessions (both through the http listener)
+	Via string `json:"via,omitempty"`
+	// no plain tcp listener in the configuration: nothing forces proxy.Shutdown to take the whole wait (a
+	// tcp.Server always does), so the process ends as soon as the http side has drained
+	NoTCP bool `json:"notcp,omitempty"`
 }
 
 type ProcOut struct {
@@ -112,6 +118,15 @@ func runProcess(in *ProcIn) (*ProcOut, error) {
 	if in.Dynamic && (in.Refresh < 50 || in.Refresh+500 > in.Grace+in.Wait) {
 		return nil, fmt.Errorf("%w: refresh must be ≥ 50 ms and end ≥ 500 ms before grace + wait", errEnvelope)
 	}
+	switch in.Via {
+	case "":
+		if in.NoTCP {
+			return nil, fmt.Errorf("%w: tunnels need the tcp listener", errEnvelope)
+		}
+	case "http", "ws":
+	default:
+		return nil, fmt.Errorf("%w: via %q", errEnvelope, in.Via)
+	}
 	switch in.Second {
 	case "":
 	case "TERM", "INT": // the short tunnel (ends at grace + wait/4) must still be in flight when it arrives
@@ -138,8 +153,12 @@ func runProcess(in *ProcIn) (*ProcOut, error) {
 	httpA, tcpA, uiA, dynA := addrs[0], addrs[1], addrs[2], addrs[3]
 	_, dynPort, _ := net.SplitHostPort(dynA)
 	_, tcpPort, _ := net.SplitHostPort(tcpA)
-	listen := httpA + ";proto=http," + tcpA + ";proto=tcp"
-	routes := "route add plain :" + tcpPort + " tcp://" + u.tcpAddr
+	listen := httpA + ";proto=http"
+	routes := "route add hold / http://" + u.httpAddr
+	if !in.NoTCP {
+		listen += "," + tcpA + ";proto=tcp"
+		routes += "\nroute add plain :" + tcpPort + " tcp://" + u.tcpAddr
+	}
 	if in.Dynamic {
 		listen += fmt.Sprintf(",127.0.0.1:0;proto=tcp-dynamic;refresh=%dms", in.Refresh)
 		routes += "\nroute add dyn :" + dynPort + " tcp://" + u.tcpAddr
@@ -164,7 +183,10 @@ func runProcess(in *ProcIn) (*ProcOut, error) {
 		cmd.Process.Kill()
 		<-exited
 	}
-	ports := []string{httpA, tcpA}
+	ports := []string{httpA}
+	if !in.NoTCP {
+		ports = append(ports, tcpA)
+	}
 	if in.Dynamic {
 		ports = append(ports, "127.0.0.1:"+dynPort)
 	}
@@ -174,27 +196,37 @@ func runProcess(in *ProcIn) (*ProcOut, error) {
 			return nil, fmt.Errorf("fabio listener %s did not come up: %s", a, tail(logb.String(), 600))
 		}
 	}
-	// a tunnel that never ends, through the plain tcp listener
+	start := func(it *item) {
+		switch in.Via {
+		case "http":
+			startWork("http", false, httpA, it)
+		case "ws":
+			startWS("http", httpA, it)
+		default:
+			startWork("tcp", false, tcpA, it)
+		}
+	}
+	// a piece of work that never ends
 	it := newItem()
 	defer dropItem(it)
 	defer it.Release()
-	startWork("tcp", false, tcpA, it)
+	start(it)
 	select {
 	case <-it.started:
 	case <-time.After(5 * time.Second):
 		kill()
-		return nil, errors.New("tunnel through fabio did not get in flight")
+		return nil, fmt.Errorf("work through fabio did not get in flight (%s): %s", it.detail, tail(logb.String(), 400))
 	}
 
 	short := newItem()
 	defer dropItem(short)
 	defer short.Release()
-	startWork("tcp", false, tcpA, short)
+	start(short)
 	select {
 	case <-short.started:
 	case <-time.After(5 * time.Second):
 		kill()
-		return nil, errors.New("second tunnel through fabio did not get in flight")
+		return nil, errors.New("second piece of work through fabio did not get in flight")
 	}
 
 	out := &ProcOut{}
@@ -278,10 +310,10 @@ loop:
 	time.Sleep(100 * time.Millisecond)
 	out.ShortDone = short.get() == "completed"
 	if !out.ShortDone {
-		out.Notes = append(out.Notes, fmt.Sprintf("the tunnel ending %v after SIGTERM (grace %v + wait/4) was %s: %s", grace+wait/4, grace, short.get(), short.detail))
+		out.Notes = append(out.Notes, fmt.Sprintf("the work ending %v after SIGTERM (grace %v + wait/4) was %s: %s", grace+wait/4, grace, short.get(), short.detail))
 	}
 	if f := it.get(); f != "cut" {
-		out.Notes = append(out.Notes, "the endless tunnel ended as "+f)
+		out.Notes = append(out.Notes, "the endless work ended as "+f)
 	}
 	return out, nil
 }
@@ -298,7 +330,12 @@ func init() {
 		Name: "c18.process",
 		Gen: func(r *hx.Rand, i int) interface{} {
 			in := ProcIn{Wait: []int{900, 1200, 1500}[r.Intn(3)], Grace: []int{300, 450, 600}[r.Intn(3)]}
-			switch i % 4 {
+			if i%6 >= 4 { // work through the http listener, with and without a tcp listener next to it
+				in.Via = []string{"http", "ws"}[i%2]
+				in.NoTCP = (i/6)%2 == 0
+				return in
+			}
+			switch i % 6 {
 			case 0: // refresher wakes several times inside the grace period
 				in.Dynamic, in.Refresh = true, []int{60, 100, 200}[r.Intn(3)]
 			case 1, 3: // a second signal while the exit handler drains (supervisor re-sending TERM, ^C twice)
